@@ -381,8 +381,6 @@ def execute(root, proj, cfg, ops):
                 for s in r.steps:
                     key = Graph.key_of(s)
                     for wp in s['writes']:
-                        if wp.endswith('.d'):
-                            continue
                         if wp in writers and writers[wp] != key:
                             c.vio('single-writer', '{} is written by two '
                                   'different steps of one build'.format(wp))
